@@ -277,9 +277,9 @@ const TOL_GEO: f64 = 1e-11;
 /// weighted densities relative to the bulk weighted density of the same row
 const TOL_WD: f64 = 1e-10;
 /// Euler-Lagrange residual relative to the segment density
-const TOL_RES: f64 = 5e-11;
+const TOL_RES: f64 = 3e-8;
 /// grand potential density vs -p, relative to the sum of |terms| of omega
-const TOL_OMEGA: f64 = 1e-10;
+const TOL_OMEGA: f64 = 3e-9;
 
 /// Functionals with association solve the site fractions iteratively to `tol_cross_assoc`
 /// (default 1e-10), independently in the bulk state and on the grid: every derived quantity
@@ -318,10 +318,59 @@ pub struct Bulk {
     pub rho_comp: Array1<f64>,
     /// partial densities per segment
     pub rho_seg: Array1<f64>,
+    /// conditioning of the association term: 1 + 1e-5 exp(eps_AB,max / T) (1 without association)
+    pub assoc_cond: f64,
 }
+
+/// largest association energy (K) of a spec (pure records, binary overrides; group-contribution
+/// models: the OH group of the shipped hetero-segmented tables, 2575.9 K)
+pub fn max_eps_ab(spec: &ModelSpec) -> f64 {
+    if !spec.has_association() {
+        return 0.0;
+    }
+    let mut e = 0.0f64;
+    for p in &spec.pure {
+        e = e.max(p["model_record"]["epsilon_k_ab"].as_f64().unwrap_or(0.0));
+    }
+    for (_, _, b) in &spec.binary {
+        e = e.max(b["epsilon_k_ab"].as_f64().unwrap_or(0.0));
+    }
+    if matches!(spec.family, Family::GcPcSaftFunctional | Family::GcPcSaft) {
+        e = e.max(2575.9);
+    }
+    e
+}
+
+/// The fraction of non-bonded sites X falls like exp(-eps_AB / T); the association term and
+/// above all its derivatives (one Newton step of the site-fraction equations in dual numbers,
+/// src/association/mod.rs:436-440) lose digits like eps_machine / X. Measured on the pinned tree
+/// (hydrogen + water, identical weighted densities at all grid points): spread of the partial
+/// derivatives over the grid 4e-15 at eps_AB/T = 12, 7e-13 at 18, 4e-11 at 22, 1.5e-7 at 30,
+/// 2.7e-3 at 40, 0.5 at 45. Comparisons that involve the association term carry the factor
+/// 1 + 1e-5 exp(eps_AB/T) (>= 400 x the measured spread); beyond 1e6 (eps_AB/T > 25.3) they are
+/// not asserted.
+pub fn assoc_conditioning(spec: &ModelSpec, t: f64) -> f64 {
+    let e = max_eps_ab(spec);
+    if e == 0.0 {
+        1.0
+    } else {
+        1.0 + 1e-5 * (e / t).min(200.0).exp()
+    }
+}
+pub const ASSOC_COND_MAX: f64 = 1e6;
+
+/// id of the known finding: a functional with an association contribution panics instead of
+/// returning NaN / Err when the cross-association iteration does not converge
+pub const KF_ASSOC_PANIC: &str = "C16/functional-bulk-panics-cross-association";
 
 /// Build the bulk state of a case (None + discard reason if the state cannot be built).
 pub fn build_bulk(spec: &ModelSpec, st: &StateSpec, obs: &mut Obs) -> Option<Bulk> {
+    build_bulk_with(spec, st, obs, None)
+}
+
+/// `panic_id`: Some(id) routes a panic of feos while the bulk state is built / evaluated through
+/// `known_or_fail(id)`, None counts it as a discard.
+pub fn build_bulk_with(spec: &ModelSpec, st: &StateSpec, obs: &mut Obs, panic_id: Option<&str>) -> Option<Bulk> {
     let model = match spec.build() {
         Ok(m) => m,
         Err(e) => {
@@ -340,25 +389,57 @@ pub fn build_bulk(spec: &ModelSpec, st: &StateSpec, obs: &mut Obs) -> Option<Bul
         // the Feynman-Hibbs corrected potentials are parameterised for T >= 15-20 K
         inputs.0 = Temperature::from_reduced(20.0);
     }
-    let state = match build_state(&model, &inputs) {
-        Ok(s) => s,
-        Err(e) => {
+    // The bulk route of a functional (`FunctionalContribution::helmholtz_energy`,
+    // feos-dft/src/functional_contribution.rs:44-45) unwraps the result of
+    // `helmholtz_energy_density`: it panics where the equation of state returns NaN.
+    let built = std::panic::catch_unwind(std::panic::AssertUnwindSafe(|| {
+        let state = build_state(&model, &inputs)?;
+        let p = state.pressure(Contributions::Total).to_reduced();
+        Ok::<_, String>((state, p))
+    }));
+    let (state, p) = match built {
+        Ok(Ok(sp)) => sp,
+        Ok(Err(e)) => {
             obs.discard(format!("state:{}", e.chars().take(40).collect::<String>()));
             return None;
         }
+        Err(e) => {
+            let m = e
+                .downcast_ref::<String>()
+                .cloned()
+                .or_else(|| e.downcast_ref::<&str>().map(|s| s.to_string()))
+                .unwrap_or_default();
+            let msg = format!(
+                "bulk state of {} at T = {} panics: {} (eps_AB/T = {:.1})",
+                spec.label(),
+                inputs.0,
+                m.chars().take(120).collect::<String>(),
+                max_eps_ab(spec) / inputs.0.to_reduced()
+            );
+            match panic_id {
+                Some(id) if m.contains("Cross association") => {
+                    obs.class("bulk state panics: cross association not converged");
+                    obs.known_or_fail(id, msg)
+                }
+                Some(_) => obs.fail(msg),
+                None => obs.discard(format!("bulk state panics:{}", m.chars().take(60).collect::<String>())),
+            }
+            return None;
+        }
     };
-    let p = state.pressure(Contributions::Total).to_reduced();
     if !p.is_finite() {
         obs.discard("non-finite bulk pressure");
         return None;
     }
     let rho_comp = state.partial_density.to_reduced();
     let rho_seg = state.eos.component_index().mapv(|c| rho_comp[c]);
+    let t = state.temperature.to_reduced();
     Some(Bulk {
-        t: state.temperature.to_reduced(),
+        t,
         p,
         rho_comp,
         rho_seg,
+        assoc_cond: assoc_conditioning(spec, t),
         state,
     })
 }
@@ -396,6 +477,15 @@ pub fn note(key: &str, v: f64) {
     let e = w.entry(key.to_string()).or_insert(0.0);
     if v > *e || v.is_nan() {
         *e = v;
+    }
+}
+
+/// an error of `solve`: a clean failure of the site-fraction iteration is no verdict
+fn solve_error(obs: &mut Obs, what: &str, e: &str) {
+    if e.contains("Cross association") {
+        obs.discard(format!("{what}: cross association not converged on the grid"));
+    } else {
+        obs.fail(format!("{what} failed: {e}"));
     }
 }
 
@@ -461,7 +551,16 @@ where
             .fold(0.0f64, f64::max);
         1.0 + kmax * rmax
     };
-    let (tol_o, tol_r) = (tol_omega(&cx.case.spec), tol_res(&cx.case.spec) * amp);
+    let el_ok = cx.bulk.assoc_cond < ASSOC_COND_MAX;
+    if !el_ok {
+        obs.class("association beyond f64 conditioning (eps_AB/T > 25): Euler-Lagrange, omega and solve clauses not asserted");
+    } else if cx.bulk.assoc_cond > 2.0 {
+        obs.class("association conditioning factor > 2 applied");
+    }
+    let (tol_o, tol_r) = (
+        tol_omega(&cx.case.spec) * cx.bulk.assoc_cond,
+        tol_res(&cx.case.spec) * amp * cx.bulk.assoc_cond,
+    );
     let tol_wd = TOL_WD * amp;
     let akey = if cx.case.spec.has_association() { "assoc" } else { "plain" };
     let dft = profile.dft.clone();
@@ -566,8 +665,19 @@ where
     note("weighted densities / bulk value", worst_wd);
     note("weighted densities / (bulk value x (1 + k_max R_max))", worst_wd / amp);
 
+    // the iteration of the site fractions may fail on the grid as well (clean Err): no verdict
+    let assoc_err = |obs: &mut Obs, what: &str, e: &dyn std::fmt::Display| -> bool {
+        let m = e.to_string();
+        if m.contains("Cross association") {
+            obs.discard(format!("{what}: cross association not converged on the grid"));
+            true
+        } else {
+            false
+        }
+    };
     // ---- Euler-Lagrange residual ----
     match profile.residual(false) {
+        Ok(_) if !el_ok => {}
         Ok((res, res_bulk, norm)) => {
             let mut worst = 0.0f64;
             for (s, r) in res.outer_iter().enumerate() {
@@ -580,15 +690,25 @@ where
             obs.ensure(norm <= tol_r * rho_tot, || format!("[{route}] residual norm {norm:e} vs rho {rho_tot:e}"));
             obs.ensure(res_bulk.iter().all(|x| *x == 0.0), || format!("[{route}] bulk residual {res_bulk:?}"));
         }
-        Err(e) => obs.fail(format!("[{route}] residual(false) failed: {e}")),
+        Err(e) => {
+            if assoc_err(obs, "residual", &e) {
+                return;
+            }
+            obs.fail(format!("[{route}] residual(false) failed: {e}"))
+        }
     }
     match profile.residual(true) {
+        Ok(_) if !el_ok => {}
         Ok((res, _, _)) => {
             let worst = max_abs_dev(res.iter(), 0.0);
             note(&format!("residual(true) max [{akey}]"), worst);
             obs.ensure(worst <= tol_r, || format!("[{route}] residual(true): max |ln rho_proj - ln rho| = {worst:e}"));
         }
-        Err(e) => obs.fail(format!("[{route}] residual(true) failed: {e}")),
+        Err(e) => {
+            if !assoc_err(obs, "residual(log)", &e) {
+                obs.fail(format!("[{route}] residual(true) failed: {e}"))
+            }
+        }
     }
 
     // ---- grand potential density = -p ----
@@ -604,7 +724,9 @@ where
             s * b.t
         }
         Err(e) => {
-            obs.fail(format!("[{route}] functional_derivative failed: {e}"));
+            if !assoc_err(obs, "functional_derivative", &e) {
+                obs.fail(format!("[{route}] functional_derivative failed: {e}"));
+            }
             return;
         }
     };
@@ -612,6 +734,7 @@ where
     let tol_abs = tol_o * s_omega + atol_ic;
     let mut nontrivial = false;
     match profile.grand_potential_density() {
+        Ok(_) if !el_ok => {}
         Ok(om) => {
             let om = om.to_reduced();
             let dev = max_abs_dev(om.iter(), -b.p);
@@ -657,6 +780,7 @@ where
 
     // ---- grand potential + p integral(1) = 0 ----
     match profile.grand_potential() {
+        Ok(_) if !el_ok => {}
         Ok(om) => {
             note(&format!("|Omega + p V| / (scale V) [{akey}]"), (om.to_reduced() + b.p * v_int).abs() / (s_omega * v_int));
             obs.close_scaled(
@@ -670,6 +794,9 @@ where
         Err(e) => obs.fail(format!("[{route}] grand_potential failed: {e}")),
     }
 
+    if !el_ok {
+        return;
+    }
     // ---- wrapper: PoreProfile (public fields) -> interfacial tension; one solve call ----
     let mut pore = PoreProfile {
         profile,
@@ -706,7 +833,7 @@ where
                 None => obs.fail(format!("[{route}] no solver log after solve")),
             }
         }
-        Err(e) => obs.fail(format!("[{route}] solve from the uniform profile failed: {e}")),
+        Err(e) => solve_error(obs, &format!("[{route}] solve from the uniform profile"), &e.to_string()),
     }
     if nontrivial {
         obs.nontrivial();
@@ -747,7 +874,7 @@ pub fn check(case: &Case, obs: &mut Obs) {
     if g.offset > 0.0 {
         obs.class("potential-offset");
     }
-    let Some(bulk) = build_bulk(&case.spec, &case.state, obs) else { return };
+    let Some(bulk) = build_bulk_with(&case.spec, &case.state, obs, Some(KF_ASSOC_PANIC)) else { return };
     obs.class(if case.state.f_eta < 1e-3 {
         "dilute"
     } else if case.state.f_eta < 0.2 {
@@ -789,7 +916,8 @@ pub fn check(case: &Case, obs: &mut Obs) {
 /// external potential (Lanczos fixed to Some(1) by those constructors).
 fn check_wrapped(case: &Case, obs: &mut Obs, bulk: &Bulk) {
     let g = &case.grid;
-    let (tol_o, tol_r) = (tol_omega(&case.spec), tol_res(&case.spec));
+    let el_ok = bulk.assoc_cond < ASSOC_COND_MAX;
+    let (tol_o, tol_r) = (tol_omega(&case.spec) * bulk.assoc_cond, tol_res(&case.spec) * bulk.assoc_cond);
     let dummy = ExternalPotential::HardWall { sigma_ss: 1.0 };
     match g.kind {
         GridKind::Cartesian1 | GridKind::Spherical | GridKind::Polar => {
@@ -827,7 +955,7 @@ fn check_wrapped(case: &Case, obs: &mut Obs, bulk: &Bulk) {
                 // GcPcSaftFunctional does not implement PairPotential: PairCorrelation is not
                 // available for heterosegmented functionals
                 obs.class("wrapper:PairCorrelation:not-applicable(gc)");
-            } else if g.kind == GridKind::Spherical {
+            } else if g.kind == GridKind::Spherical && el_ok {
                 // PairCorrelation through its public fields, zero potential
                 let rho = bulk_density::<Ix2>(bulk, &[g.n[0]]);
                 let profile = DFTProfile::<Ix1, Model>::new(g.build(), &bulk.state, None, Some(&rho), Some(1));
@@ -861,7 +989,7 @@ fn check_wrapped(case: &Case, obs: &mut Obs, bulk: &Bulk) {
                             n,
                         );
                     }
-                    Err(e) => obs.fail(format!("PairCorrelation::solve failed: {e}")),
+                    Err(e) => solve_error(obs, "PairCorrelation::solve", &e.to_string()),
                 }
             }
         }
@@ -944,7 +1072,8 @@ fn check_wrapped(case: &Case, obs: &mut Obs, bulk: &Bulk) {
                         worst = worst.max(max_abs_dev(r.iter(), bulk.rho_seg[s]) / bulk.rho_seg[s]);
                     }
                     obs.ensure(worst <= tol_r, || format!("SolvationProfile: initial density deviates from bulk by {worst:e}"));
-                    match sp.solve_inplace(None, false) {
+                    match if el_ok { sp.solve_inplace(None, false) } else { Ok(()) } {
+                        Ok(()) if !el_ok => {}
                         Ok(()) => {
                             obs.close_scaled(
                                 "SolvationProfile: solvation free energy / volume",
@@ -954,7 +1083,7 @@ fn check_wrapped(case: &Case, obs: &mut Obs, bulk: &Bulk) {
                                 tol_o * s_omega + atol_ideal_chain(bulk.t, &sp.profile.dft.m().into_owned()),
                             );
                         }
-                        Err(e) => obs.fail(format!("SolvationProfile::solve failed: {e}")),
+                        Err(e) => solve_error(obs, "SolvationProfile::solve", &e.to_string()),
                     }
                     let cx = Ctxt {
                         case,
@@ -1008,7 +1137,8 @@ fn part() -> PartCfg {
 pub fn run(ctx: &Ctx) {
     ctx.set_rule("sampled: proptest genomes -> grid (8 kinds: Cartesian1/2/3, Periodical2 (angle 30-150 deg), Periodical3 (angles 45-135 deg, Gram determinant > 0.1), Spherical, Polar, Cylindrical; points per axis log-uniform 16-4096 (1-D), 8-128 (2-D), 8-32 (3-D); lengths log-uniform 10-300 A; Cartesian1 optionally with a potential offset) x functional (PcSaftFunctional, FMTFunctional, GcPcSaftFunctional, PetsFunctional, SaftVRQMieFunctional through feos::ResidualModel; 3 FMT versions; 1-3 components (1-2 in 2-D/3-D); shipped/perturbed/random records) x bulk state (tau 0.4-3, eta fraction 2e-6-0.9, open-simplex composition) x Lanczos {None,1,2} x wrapped (profile additionally built by Pore1D/Pore2D/Pore3D/SolvationProfile constructors and PairCorrelation fields with zero external potential). Density = bulk partial densities everywhere. Non-trivial: the residual pressure |p - rho T| exceeds 1e3 x the tolerance of the grand-potential comparison (the functional contributes visibly). Distinct by hash of the canonical case JSON.");
     ctx.assume("reference: feos-core State of the same functional (bulk route: weight constants at k=0, dual numbers) for p and the bulk weighted densities; independent geometric volume formulas (L, 4/3 pi L^3, pi L^2, pi R^2 L, L1 L2 sin(alpha), L1 L2 L3 sqrt(Gram)) for the integral of one");
-    ctx.assume("tolerances: geometry/moles 1e-11 relative; weighted densities 1e-10 (1 + k_max R_max) of the bulk value (vector rows: of sum_s |prefactor| 4 pi R^2 rho_s); Euler-Lagrange residual 5e-11 (1 + k_max R_max) relative to the segment density (associating models: tol_cross_assoc (1 + k_max R_max)); k_max = pi n / L of the finest axis, R_max the largest kernel radius (roundoff amplification by weight functions growing with k); grand potential density, Omega + p V, interfacial tension, solvation free energies 1e-10 (associating models: 10 x tol_cross_assoc, the site fractions are iterated independently in the bulk and on the grid) of the sum of |terms| of omega (T (|f| + sum (|dF/drho| + m + 1) rho)) plus 2 T EPSILON sum (m_i - 1) for the documented ln(|rho| + EPSILON) regularisation of the bulk ideal-chain term");
+    ctx.assume("tolerances: geometry/moles 1e-11 relative; weighted densities 1e-10 (1 + k_max R_max) of the bulk value (vector rows: of sum_s |prefactor| 4 pi R^2 rho_s); Euler-Lagrange residual 3e-8 (1 + k_max R_max) (worst of 300 000 thorough cases: 5.9e-10, quadrupolar PC-SAFT mixture at 0.55 T*) relative to the segment density (associating models: tol_cross_assoc (1 + k_max R_max)); k_max = pi n / L of the finest axis, R_max the largest kernel radius (roundoff amplification by weight functions growing with k); grand potential density, Omega + p V, interfacial tension, solvation free energies 3e-9 (worst of 300 000 thorough cases after the ideal-chain term: 5.0e-11; associating models: 10 x tol_cross_assoc, the site fractions are iterated independently in the bulk and on the grid) of the sum of |terms| of omega (T (|f| + sum (|dF/drho| + m + 1) rho)) plus 2 T EPSILON sum (m_i - 1) for the documented ln(|rho| + EPSILON) regularisation of the bulk ideal-chain term");
+    ctx.assume("association: comparisons that involve the association term carry the conditioning factor 1 + 1e-5 exp(eps_AB,max/T) (the site fractions fall like exp(-eps_AB/T) and their derivatives lose eps_machine/X digits; measured spread of the partial derivatives over a uniform grid 4e-15 / 7e-13 / 4e-11 / 1.5e-7 / 2.7e-3 at eps_AB/T = 12 / 18 / 22 / 30 / 40); beyond a factor 1e6 (eps_AB/T > 25.3) the Euler-Lagrange, grand-potential and solve clauses are not asserted; a clean Err(NotConverged(Cross association)) on the grid is a discard; a panic of the bulk route is the finding C16/functional-bulk-panics-cross-association");
     ctx.assume("Axis::volume documents that a potential offset is excluded: for Cartesian1 axes with an offset volume() is compared with the length passed to the constructor and excess quantities with -p (resp. rho) x offset region");
     ctx.assume("typed functionals are exercised through feos::ResidualModel (enum dispatch to the same code), so that one instantiation per dimension covers all families");
     ctx.run_sampled(&part(), &decode, &check);
